@@ -39,6 +39,30 @@ Proof. unfold goal_holds. destruct (b_val g); try reflexivity; discriminate. Qed
 Lemma subgoal_nonnum c : nonnum (b_val c) = true -> subgoal_of c = c.
 Proof. unfold subgoal_of, reparse_val. destruct c as [k o v]. cbn. destruct v; try reflexivity; discriminate. Qed.
 
+(** literals of rule conditions: an integer literal survives the code's re-parsing through f64 (a decidable condition on the
+    literal) and is compared with an integer-valued field; a float literal is compared with a field that is not integer-valued *)
+Definition lit_ok (D : atoms) (c : bcond) : Prop :=
+  match b_val c with
+  | VInt z => is_whole_small (f_of_Z z) = true /\ f_to_i64 (f_of_Z z) = z /\ (forall v, In (b_field c, v) D -> exists z', v = VInt z')
+  | VNum _ => forall v, In (b_field c, v) D -> forall z', v <> VInt z'
+  | _ => True end.
+Fixpoint glit_ok (D : atoms) (g : bgroup) : Prop :=
+  match g with BSingle c => lit_ok D c | BAnd a b | BOr a b => glit_ok D a /\ glit_ok D b end.
+
+Lemma sub_equiv D g c : covers D g -> lit_ok D c -> goal_holds g (subgoal_of c) = bholds g c.
+Proof.
+  intros [Hf Hc] Hl. destruct c as [k o v]. unfold lit_ok in Hl. cbn [b_val b_field] in Hl.
+  unfold goal_holds, subgoal_of, reparse_val. cbn [b_val b_field b_op].
+  destruct v as [s|x|z|b|l|ob| |e]; try reflexivity.
+  - (* float literal *)
+    destruct (blookup g k) as [w|] eqn:B; [|reflexivity]. destruct w as [ws|wx|wz|wb|wl|wo| |we]; try reflexivity.
+    exfalso. rewrite (flat_blookup g k Hf) in B. exact (Hl (VInt wz) (Hc k _ B) wz eq_refl).
+  - (* integer literal *)
+    destruct Hl as (H1 & H2 & H3). destruct (blookup g k) as [w|] eqn:B.
+    + rewrite (flat_blookup g k Hf) in B. destruct (H3 w (Hc k w B)) as [z' ->]. rewrite H1, H2. reflexivity.
+    + unfold bholds. cbn [b_field b_op b_val]. rewrite B. reflexivity.
+Qed.
+
 Section Complete.
 Variable rules : list brule.
 Variable max_depth : Z.
@@ -172,7 +196,7 @@ Proof. reflexivity. Qed.
 
 (** * completeness *)
 Hypothesis Hconj : forall r, In r rules -> conj (br_cond r) = true.
-Hypothesis Hnonnum : forall r, In r rules -> gnonnum (br_cond r) = true.
+Hypothesis Hlit : forall r, In r rules -> glit_ok D (br_cond r).
 Hypothesis Hgd : forall r, In r rules -> (gdepth (br_cond r) <= 62)%nat.
 
 Definition F (h : nat) : nat := (64 * (h + 1))%nat.
@@ -211,21 +235,23 @@ Proof.
 Qed.
 
 (** proving the (conjunctive) conditions of a rule whose conditions hold at level h *)
-Lemma prove_complete h : CompleteAt h -> forall c, conj c = true -> positive c = true -> gnonnum c = true ->
+Lemma prove_complete h : CompleteAt h -> forall c, conj c = true -> positive c = true -> glit_ok D c ->
   gholds (level h rules f0) c = true ->
   forall g depth fuel, covers D g -> ext f0 g -> depth + Z.of_nat h <= max_depth -> (gdepth c + 1 + F h <= fuel)%nat ->
   exists g2, prove rules max_depth fuel c depth g = (true, g2) /\ gholds g2 c = true.
 Proof.
-  intros IH. induction c as [c|a IHa b IHb|a IHa b IHb]; cbn [conj positive gnonnum gholds gdepth]; intros Hcj Hp Hn Hh g depth fuel Hc He Hd Hf.
+  intros IH. induction c as [c|a IHa b IHb|a IHa b IHb]; cbn [conj positive glit_ok gholds gdepth]; intros Hcj Hp Hn Hh g depth fuel Hc He Hd Hf.
   - destruct fuel as [|fu]; [unfold F in Hf; lia|]. rewrite prove_S_single.
     destruct (bholds g c) eqn:Eb; [exists g; split; [reflexivity|exact Eb]|].
-    rewrite (subgoal_nonnum c Hn).
-    destruct (IH c Hp) with (g := g) (depth := depth) (fuel := fu) (cands := sub_candidates rules c) as [g2 Hs]; try assumption.
-    + rewrite (goal_holds_nonnum _ c Hn). exact Hh.
-    + lia.
-    + apply sub_candidates_ok.
-    + exists g2. split; [exact Hs|]. rewrite <- (goal_holds_nonnum g2 c Hn). eapply search_sound. exact Hs.
-  - apply andb_true_iff in Hcj, Hp, Hn, Hh. destruct Hcj as [Ca Cb], Hp as [Pa Pb], Hn as [Na Nb], Hh as [Ha Hb].
+    assert (Hp' : positive_op (b_op (subgoal_of c)) = true) by exact Hp.
+    assert (Hg' : goal_holds (level h rules f0) (subgoal_of c) = true) by (rewrite (sub_equiv D _ c (proj1 (level_props h)) Hn); exact Hh).
+    assert (Hok : cands_ok (subgoal_of c) (sub_candidates rules c)) by (destruct (sub_candidates_ok c) as [A B]; split; [exact A|exact B]).
+    assert (Hfu : (F h <= fu)%nat) by lia.
+    destruct (IH (subgoal_of c) Hp' Hg' g depth fu (sub_candidates rules c) Hc He Hd Hfu Hok) as [g2 Hs].
+    exists g2. split; [exact Hs|].
+    pose proof (proj1 (search_prove_covers rules max_depth D Hhorn D_closed fu) (subgoal_of c) (sub_candidates rules c) depth g true g2 (proj1 (sub_candidates_ok c)) Hc Hs) as Hc2.
+    rewrite <- (sub_equiv D g2 c Hc2 Hn). eapply search_sound. exact Hs.
+  - apply andb_true_iff in Hcj, Hp, Hh. destruct Hcj as [Ca Cb], Hp as [Pa Pb], Hn as [Na Nb], Hh as [Ha Hb].
     destruct fuel as [|fu]; [lia|]. rewrite prove_S_and.
     destruct (IHa Ca Pa Na Ha g depth fu Hc He Hd) as [g1 [P1 G1]]; [lia|]. rewrite P1.
     pose proof (proj2 (search_prove_covers rules max_depth D Hhorn D_closed fu) a depth g true g1 Hc P1) as Hc1.
@@ -253,7 +279,7 @@ Proof.
   - (* the rule that works *)
     unfold try_exec. destruct (gholds g (br_cond r)) eqn:G1.
     + rewrite (Hexec g Hc). eauto.
-    + destruct (prove_complete h IH (br_cond r) (Hconj r Hr) (proj1 (Hhorn r Hr)) (Hnonnum r Hr) Hh g (depth + 1) fu Hc He) as [g2 [P2 G2]]; [lia|pose proof (Hgd r Hr); lia|].
+    + destruct (prove_complete h IH (br_cond r) (Hconj r Hr) (proj1 (Hhorn r Hr)) (Hlit r Hr) Hh g (depth + 1) fu Hc He) as [g2 [P2 G2]]; [lia|pose proof (Hgd r Hr); lia|].
       rewrite P2, G2.
       pose proof (proj2 (search_prove_covers rules max_depth D Hhorn D_closed fu) _ _ _ _ _ Hc P2) as Hc2.
       rewrite (Hexec g2 Hc2). eauto.
